@@ -160,6 +160,18 @@ fn eval(req: &str) -> ImplOut {
                 m.evaluate();
                 let s0 = stored(m.get_model());
                 let c0 = cells(m.get_model());
+                // control experiment: a plain re-evaluation, without any switch.  When that alone changes
+                // values (overlapping arrays: evaluation is not idempotent — findings F07b/F07c/F31a,
+                // judged by C07/C31), a difference after the switch cannot be attributed to the switch.
+                m.evaluate();
+                let stable = c0 == cells(m.get_model());
+                m.evaluate();
+                let stable = stable && c0 == cells(m.get_model());
+                if !stable {
+                    let _ = apply(&mut m, &op);
+                    out = out.tag("switch:skipped-evaluation-not-idempotent");
+                    continue;
+                }
                 if apply(&mut m, &op).is_err() {
                     out = out.fail("c10:switch:rejected", &format!("{op:?}"));
                     break;
@@ -197,6 +209,10 @@ fn eval(req: &str) -> ImplOut {
         m.evaluate();
         let s0 = stored(m.get_model());
         let c0 = cells(m.get_model());
+        m.evaluate();
+        let stable = c0 == cells(m.get_model());
+        m.evaluate();
+        let stable = stable && c0 == cells(m.get_model());
         let ok = m.set_language(LANGUAGES[a]).is_ok() && m.set_locale(LOCALES[b]).is_ok();
         m.evaluate();
         switches = 2;
@@ -204,6 +220,8 @@ fn eval(req: &str) -> ImplOut {
             out = out.fail("c10:switch:rejected", &format!("{} {}", LANGUAGES[a], LOCALES[b]));
         } else if s0 != stored(m.get_model()) {
             out = out.fail("c10:switch:stored-text-changed", &first_diff_vec(&s0, &stored(m.get_model())));
+        } else if !stable {
+            out = out.tag("switch:skipped-evaluation-not-idempotent");
         } else if c0 != cells(m.get_model()) {
             out = out.fail("c10:switch:value-changed", &first_diff_vec(&c0, &cells(m.get_model())));
         } else {
